@@ -1,4 +1,114 @@
 import VpnCloud.Model.Table
 import VpnCloud.Spec.TableSpec
+import VpnCloud.Proofs.Lemmas.TableLemmas
+import VpnCloud.Proofs.C12
+import VpnCloud.Proofs.C19
+/-
+  C13 — Learned addresses: last writer wins, silent addresses expire, a disconnect forgets.
+  Property theorems.
+-/
 namespace VpnCloud.Proofs.C13
+open VpnCloud VpnCloud.Table VpnCloud.Spec VpnCloud.Spec.TableSpec VpnCloud.Proofs.TableLemmas
+
+theorem learn_cache (t : Table) (now : Int) (a : Addr) (p : PeerId) :
+    (t.learn now a p).cache =
+      ⟨a, p, now + t.cacheTimeout⟩ :: t.cache.filter (fun v => v.addr ≠ a) := rfl
+
+theorem learn_spec (t : Table) (now : Int) (a : Addr) (p : PeerId) : learnOk t now a p (t.learn now a p) = true := by
+  simp only [learnOk, Bool.and_eq_true, decide_eq_true_eq]
+  refine ⟨⟨?_, rfl⟩, ?_⟩
+  · simp [sameParams, learn]
+  · rw [learn_cache]
+    exact sameSet_refl _
+
+/-- last writer wins: after learning, the address resolves to that peer, whatever was known before -/
+theorem learn_last_writer (t : Table) (now now' : Int) (a : Addr) (p : PeerId) :
+    ((t.learn now a p).lookup now' a).2 = some p := by
+  have : (t.learn now a p).cache.find? (fun v => v.addr = a) = some ⟨a, p, now + t.cacheTimeout⟩ := by
+    rw [learn_cache]
+    simp
+  simp only [lookup, this]
+
+/-- a learned address that stays silent for longer than the switch timeout is gone after the next sweep -/
+theorem learn_expiry (t : Table) (now now' : Int) (a : Addr) (p : PeerId) (h : now + t.cacheTimeout < now') :
+    ((t.learn now a p).housekeep now').cache.find? (fun v => v.addr = a) = none := by
+  rw [List.find?_eq_none]
+  intro v hv
+  simp only [housekeep, learn_cache, List.mem_filter, List.mem_cons, decide_eq_true_eq] at hv
+  rcases hv with ⟨rfl | ⟨_, hne⟩, hto⟩
+  · simp only at hto
+    omega
+  · simpa using hne
+
+/-- a disconnect forgets everything learned from that peer -/
+theorem disconnect_forgets (t : Table) (now : Int) (p : PeerId) (hnow : 0 < now) :
+    ∀ v ∈ (t.removeClaims now p).cache, v.peer ≠ p := by
+  intro v hv
+  rw [C12.removeClaims_cache t now p hnow, List.mem_filter] at hv
+  simp only [Bool.and_eq_true, decide_eq_true_eq] at hv
+  exact hv.2.1
+
+/-- on the concrete table: an address cached for peer 1 is re-learned from peer 2 at time 100 (last writer wins), is still
+    known at the sweep at 400 = 100 + 300 and gone at the sweep at 401 (`100 + 300 < 401`); removing peer 2 at time 150
+    (`0 < 150`) forgets it at once -/
+example :
+    (exTable.lookup 100 [10, 2, 0, 1]).2 = some 1 ∧
+    ((exTable.learn 100 [10, 2, 0, 1] 2).lookup 100 [10, 2, 0, 1]).2 = some 2 ∧
+    learnOk exTable 100 [10, 2, 0, 1] 2 (exTable.learn 100 [10, 2, 0, 1] 2) = true ∧
+    (100 : Int) + exTable.cacheTimeout < 401 ∧
+    ((exTable.learn 100 [10, 2, 0, 1] 2).housekeep 400).cache.find? (fun v => v.addr = [10, 2, 0, 1]) =
+      some ⟨[10, 2, 0, 1], 2, 400⟩ ∧
+    ((exTable.learn 100 [10, 2, 0, 1] 2).housekeep 401).cache.find? (fun v => v.addr = [10, 2, 0, 1]) = none ∧
+    (0 : Int) < 150 ∧
+    ((exTable.learn 100 [10, 2, 0, 1] 2).removeClaims 150 2).cache = [] := by
+  decide
+
+end VpnCloud.Proofs.C13
+
+/-! ## Tag normalisation (frame level) -/
+namespace VpnCloud.Proofs.C13
+open VpnCloud VpnCloud.Spec.C19
+
+/-- **vlan_normalised**: for every tag-control value behind ethertype `81 00` the dissected address
+    pair depends only on the 12-bit VLAN id `vid`: id 0 (priority tag) yields the untagged 6-byte
+    addresses, any other id prefixes both addresses with the two bytes of `vid`; the priority / DEI
+    nibble and everything behind the tag (nested tags included) are ignored. -/
+theorem vlan_normalised (dst src rest : Bytes) (t0 t1 : Nat)
+    (hd : dst.length = 6) (hs : src.length = 6) (h0 : t0 < 256) (h1 : t1 < 256) :
+    frameRef (dst ++ src ++ [0x81, 0x00, t0, t1] ++ rest) =
+      (let vid := (t0 % 16) * 256 + t1
+       if vid = 0 then some (src, dst)
+       else some ([vid / 256, vid % 256] ++ src, [vid / 256, vid % 256] ++ dst)) := by
+  rcases dst with _ | ⟨d0, _ | ⟨d1, _ | ⟨d2, _ | ⟨d3, _ | ⟨d4, _ | ⟨d5, _ | ⟨d6, dr⟩⟩⟩⟩⟩⟩⟩ <;> simp at hd
+  rcases src with _ | ⟨s0, _ | ⟨s1, _ | ⟨s2, _ | ⟨s3, _ | ⟨s4, _ | ⟨s5, _ | ⟨s6, sr⟩⟩⟩⟩⟩⟩⟩ <;> simp at hs
+  have e : (t0 * 256 + t1) % 4096 = t0 % 16 * 256 + t1 := by omega
+  have hl1 : ¬ (rest.length + 16 < 14) := by omega
+  have hl2 : ¬ (rest.length + 16 < 16) := by omega
+  simp [frameRef, slice, e, hl1, hl2]
+
+/-- the same for the model of `Frame::parse` (via `C19.frame_exact`) -/
+theorem vlan_normalised_model (dst src rest : Bytes) (t0 t1 : Nat)
+    (hd : dst.length = 6) (hs : src.length = 6) (h0 : t0 < 256) (h1 : t1 < 256)
+    (hwf : Bytes.WF (dst ++ src ++ [0x81, 0x00, t0, t1] ++ rest)) :
+    C19.toOpt (Payload.frameParse (dst ++ src ++ [0x81, 0x00, t0, t1] ++ rest)) =
+      (let vid := (t0 % 16) * 256 + t1
+       if vid = 0 then some (src, dst)
+       else some ([vid / 256, vid % 256] ++ src, [vid / 256, vid % 256] ++ dst)) := by
+  rw [C19.frame_exact _ hwf]; exact vlan_normalised dst src rest t0 t1 hd hs h0 h1
+
+/-- different VLAN ids yield different addresses -/
+theorem vlan_tag_injective (v w : Nat) (hv : v < 4096) (hw : w < 4096)
+    (h : [v / 256, v % 256] = [w / 256, w % 256]) : v = w := by
+  simp at h; omega
+
+/-- an address with a VLAN prefix (8 bytes) never equals an untagged one (6 bytes) -/
+theorem tagged_ne_untagged (tag a b : Bytes) (ht : tag.length = 2) (ha : a.length = 6) (hb : b.length = 6) :
+    tag ++ a ≠ b := by
+  intro h; have := congrArg List.length h; simp [ht, ha, hb] at this
+
+example : frameRef ([2,0,0,0,0,1] ++ [2,0,0,0,0,2] ++ [0x81, 0x00, 0xe0, 0x00] ++ [8, 0]) =
+    some ([2,0,0,0,0,2], [2,0,0,0,0,1]) := by decide
+example : frameRef ([2,0,0,0,0,1] ++ [2,0,0,0,0,2] ++ [0x81, 0x00, 0xa0, 0x67] ++ [8, 0]) =
+    some ([0, 0x67, 2,0,0,0,0,2], [0, 0x67, 2,0,0,0,0,1]) := by decide
+
 end VpnCloud.Proofs.C13
